@@ -1,0 +1,9 @@
+//go:build !verif
+
+package control
+
+// verifYield and verifObserveDomainRoutingBatch are no-ops unless dae is built
+// with the `verif` tag (runtime-verification hooks, see verif_hook_on.go).
+func verifYield(string) {}
+
+func verifObserveDomainRoutingBatch([][4]uint32, []bpfDomainRouting, [][4]uint32) {}
